@@ -306,6 +306,7 @@ def destWrite (lhs : CExpr) (v : ILPure) : Except String ILEffect :=
         | .explicit | .explicitNew | .alias | .aliasNew => true
         | _ => false
       .ok (.writeReg "bundle" { opvar := opvarOf n k, deref := deref } v)
+  | .imm l _ => .ok (.setl l v)      -- an assignable immediate (`riV = riV & ~3`) is the local its `imm_assign` sets
   | _ => .error "assignment target"
 
 /-- `assignment_expr` for a source that is already compiled: returns the effect and the source it stores. -/
